@@ -1081,6 +1081,9 @@ func c10Dueng(p *Prog, r *Report) {
 			r.Ob("split:"+shortRoot(root), "-", false, "no store to "+root+" in dueng")
 		}
 	}
+	// (investigated and not armed: the pre-crop branch of the rotation reader calls dueng(SLFIND) while it stores code
+	// and quantity at SLFIND-1; slot 0's N parts are overwritten by the residue pseudo-event afterwards, so the
+	// inconsistency has no observable effect and is not a violation of this property)
 	// the applied quantity carries the global factor
 	in := walked(p, "hermes.Input")
 	if in != nil {
